@@ -123,7 +123,7 @@ META.update({
   technique="contract harnesses on CodesStats::{update, update_many, add/+=/sum, best_code, default} (Kani/CBMC) + native concrete run of the dispatch wrapper",
   category="proof",
   text="Proof for symbolic statistics values and a symbolic observed value: update adds len_<code>(value) to every tracked total with the documented index-to-parameter map and one to the count; merge operators are field-wise sums (so merge = union, by linearity); best_code returns a tracked code with the minimum total and that total. "
-       "update_many is bounded (value grid, symbolic multiplicity). The concurrent part is not explored: it is reduced to the sequential contract by std::sync::Mutex (trusted) and commutativity of field-wise addition.",
+       "update_many is bounded (value grid, symbolic multiplicity). The concurrent part is decided by rely/guarantee on the lock (c15.shared.*: Mutex::lock stubbed by an interference model that stores an arbitrary value at every acquisition; every critical section is the identity or exactly update(value), exactly one the update); mutual exclusion of std::sync::Mutex is trusted, schedules are not enumerated.",
   note="Quick tier proves the <3,4,3,3,3>-parameter instance, thorough the default <10,..> instance (best_code for the default instance may exceed the time limit and is then reported undecided, exit 2). Thread interleavings are an assumption (Kani has no threads).",
   design="4/C15"),
  "C16": dict(
